@@ -59,7 +59,7 @@ class CoopRLock:
 
 
 class Scheduler:
-    def __init__(self, watch):
+    def __init__(self, watch, entry_files=()):
         self.watch = list(watch)
         self.instr = {c: {i.offset: i for i in dis.get_instructions(c)} for c in self.watch}
         try:
@@ -69,6 +69,12 @@ class Scheduler:
         for c in self.watch:
             mon.set_local_events(TOOL, c, mon.events.INSTRUCTION)
         mon.register_callback(TOOL, mon.events.INSTRUCTION, self.on_instr)
+        # the entry of a call of the shared world function is a schedule point too: the frame exists, its first instruction
+        # (which loads what the installed variant refers to) has not run yet
+        self.entry_files = tuple(entry_files)
+        if self.entry_files:
+            mon.register_callback(TOOL, mon.events.PY_START, self.on_start)
+            mon.set_events(TOOL, mon.events.PY_START)
         self.tid_of = {}
         self.reset()
 
@@ -101,6 +107,14 @@ class Scheduler:
         arg = ins.argval if isinstance(ins.argval, str) else ""
         return f"{code.co_qualname}:{ins.opname}:{arg}"
 
+    def on_start(self, code, offset):
+        if not code.co_filename.endswith(self.entry_files):
+            return mon.DISABLE
+        tid = self.tid_of.get(threading.get_ident())
+        if tid is None:
+            return
+        self.point(tid, f"{code.co_name}:PY_START:")
+
     def on_instr(self, code, offset):
         tid = self.tid_of.get(threading.get_ident())
         if tid is None:
@@ -108,7 +122,9 @@ class Scheduler:
         ins = self.instr[code].get(offset)
         if ins is None or ins.opname not in POINT_OPS:
             return
-        name = self.point_name(code, ins)
+        self.point(tid, self.point_name(code, ins))
+
+    def point(self, tid, name):
         # the point is about to execute: pause *before* it when the budget is exhausted
         if self.budget.get(tid, -1) == 0:
             self.stops.append([tid, name])
@@ -165,6 +181,9 @@ class Scheduler:
 
     def close(self):
         mon.register_callback(TOOL, mon.events.INSTRUCTION, None)
+        if self.entry_files:
+            mon.set_events(TOOL, 0)
+            mon.register_callback(TOOL, mon.events.PY_START, None)
         for c in self.watch:
             mon.set_local_events(TOOL, c, 0)
         mon.free_tool_id(TOOL)
